@@ -137,6 +137,7 @@ func runCheck(o checkOpts) checkResult {
 	var fxs []*FuncCtx
 	var genErrs []string
 	var stale []*OblResult
+	var dropped []string
 	seen := map[string]bool{}
 	engines := map[string]*Engine{"": eng}
 	for _, t := range targets {
@@ -154,6 +155,14 @@ func runCheck(o checkOpts) checkResult {
 				continue
 			}
 			engines[t.tags] = te
+		}
+		if te.funcs[t.pkg+":"+t.key] == nil && unexportedHelper(t.key) {
+			if pc := te.contracts[t.pkg]; pc == nil || pc.Funcs[t.key] == nil || !pc.Funcs[t.key].Env {
+				// an unexported helper under contract was removed or inlined at its call sites: nothing of it is left
+				// to verify; its former callers under contract are verified against the code they contain now
+				dropped = append(dropped, "contract of "+t.key+" has no function in the working tree (unexported helper removed or inlined); its callers are verified against their current bodies")
+				continue
+			}
 		}
 		fx, err := te.verifyFunc(t.pkg, t.key)
 		if sc0, isStale := err.(*staleContractErr); isStale && err != nil {
@@ -275,10 +284,11 @@ func runCheck(o checkOpts) checkResult {
 	}
 	obls = append(obls, stale...)
 	var lockTrusted []string
+	lockTrusted = append(lockTrusted, dropped...)
 	nLockTypes := 0
 	if o.property != "" {
 		lobls, ltr, nt := eng.lockObligations(o.property)
-		lockTrusted, nLockTypes = ltr, nt
+		lockTrusted, nLockTypes = append(lockTrusted, ltr...), nt
 		for _, lo := range lobls {
 			if lo.Status != "discharged" {
 				lo.failing = []*Query{{Obl: lo.Name, Kind: "held", Status: "lockset", Solver: "lockset", Clause: lo.Clause, Pos: lo.Pos, Output: lo.Clause}}
@@ -380,7 +390,15 @@ func recoverRename(e *Engine, pkg, key string, sc *staleContractErr, o checkOpts
 				try[k] = v
 			}
 			e.renameTry[full] = try
-			fx, err := e.verifyFunc(pkg, key)
+			fx, err := func() (fx *FuncCtx, err error) {
+				// a candidate of the wrong type makes the evaluation of the clause panic: simply not a match
+				defer func() {
+					if r := recover(); r != nil {
+						fx, err = nil, fmt.Errorf("candidate rejected: %v", r)
+					}
+				}()
+				return e.verifyFunc(pkg, key)
+			}()
 			if os.Getenv("GOVC_DEBUG_RENAME") != "" {
 				fmt.Fprintln(os.Stderr, "rename: try", try, "->", err)
 			}
@@ -519,4 +537,16 @@ func retryWithoutOptional(e *Engine, pkg, key string, fx *FuncCtx) *FuncCtx {
 	}
 	fx2.trusted["optional loop invariants of "+key+" do not hold for this loop shape and were dropped; the function is verified without them"] = true
 	return fx2
+}
+
+// unexportedHelper: the last component of a function key (T.m, f; not a closure f$1) starts with a lower-case letter.
+func unexportedHelper(key string) bool {
+	if strings.Contains(key, "$") {
+		return false
+	}
+	name := key
+	if i := strings.LastIndex(key, "."); i >= 0 {
+		name = key[i+1:]
+	}
+	return name != "" && name[0] >= 'a' && name[0] <= 'z'
 }
